@@ -56,6 +56,19 @@ type Contract struct {
 	Inline   bool
 }
 
+// Pred is a named contract-level predicate (macro): `pred pkg.name(a, b) = expr`.
+type Pred struct {
+	Name   string
+	Pkg    string
+	Params []string
+	Expr   ast.Expr
+	Text   string
+}
+
+var predRe = regexp.MustCompile(`^pred\s+(\w+)\.(\w+)\(([^)]*)\)\s*=\s*(.*)$`)
+
+var preds = map[string]*Pred{}
+
 type Lemma struct {
 	Name string
 	Tags []string
@@ -108,6 +121,19 @@ func parseContractFile(path string, into map[string]*Contract) error {
 			body = pending + body
 			ln = pendingLine
 			pending = ""
+		}
+		if strings.HasPrefix(body, "pred ") {
+			m := predRe.FindStringSubmatch(body)
+			if m == nil {
+				return fmt.Errorf("%s:%d: bad pred line %q", path, ln, body)
+			}
+			ex, err := parseCExpr(m[4])
+			if err != nil {
+				return fmt.Errorf("%s:%d: %v", path, ln, err)
+			}
+			preds[m[2]] = &Pred{Name: m[2], Pkg: m[1], Params: splitNames(m[3]), Expr: ex, Text: m[4]}
+			cur = nil
+			continue
 		}
 		if strings.HasPrefix(body, "func ") {
 			m := funcLineRe.FindStringSubmatch(body)
